@@ -4,13 +4,16 @@
 # usage: tools/harmless.sh [patch names without .diff ...]
 cd /verif
 declare -A REL=( [hr-1]="C05 C11 C01" [hr-2]="C08" [hr-3]="C02 C05 C07 C10 C01" [hr-4]="C10 C06" [hr-5]="C17 C11" [hr-6]="C05 C11" [hr-7]="C13 C06" [hr-8]="C03 C04 C05 C01"
-  [hr2-1]="C07 C01" [hr2-2]="C08" [hr2-3]="C15" [hr2-4]="C09" [hr2-5]="C12" [hr2-6]="C18" [hr2-7]="C17" [hr2-8]="C02 C07 C01" [hr2-9]="C14 C06" [hr2-10]="C05 C11" )
-names=${@:-hr-1 hr-2 hr-3 hr-4 hr-5 hr-6 hr-7 hr-8 hr2-1 hr2-2 hr2-3 hr2-4 hr2-5 hr2-6 hr2-7 hr2-8 hr2-9 hr2-10}
+  [hr2-1]="C07 C01" [hr2-2]="C08" [hr2-3]="C15" [hr2-4]="C09" [hr2-5]="C12" [hr2-6]="C18" [hr2-7]="C17" [hr2-8]="C02 C07 C01" [hr2-9]="C14 C06" [hr2-10]="C05 C11"
+  [hr3-1]="C04 C06" [hr3-2]="C05" [hr3-3]="C09" [hr3-4]="C04" [hr3-5]="C02 C03" [hr3-6]="C03 C02" [hr3-7]="C10" [hr3-8]="C05 C13" [hr3-9]="C13" [hr3-10]="C13 C14" [hr3-11]="C14" [hr3-12]="C07 C01" )
+names=${@:-hr-1 hr-2 hr-3 hr-4 hr-5 hr-6 hr-7 hr-8 hr2-1 hr2-2 hr2-3 hr2-4 hr2-5 hr2-6 hr2-7 hr2-8 hr2-9 hr2-10 hr3-1 hr3-2 hr3-3 hr3-4 hr3-5 hr3-6 hr3-7 hr3-8 hr3-9 hr3-10 hr3-11 hr3-12}
 for k in $names; do
   [ -n "$(git -C /repo status --porcelain)" ] && { echo "repo not clean"; exit 2; }
   git -C /repo apply /verif/harmless/$k.diff || { echo "$k: patch does not apply"; continue; }
   for p in ${REL[$k]}; do
-    timeout 1200 ./check $p > /tmp/harmless-$k-$p.log 2>&1; rc=$?
+    cp evidence/$p.json /tmp/evh.keep 2>/dev/null
+    timeout 1800 ./check $p > /tmp/harmless-$k-$p.log 2>&1; rc=$?
+    cp /tmp/evh.keep evidence/$p.json 2>/dev/null
     echo "$k $p rc=$rc $(grep -m1 '^VIOLATION' /tmp/harmless-$k-$p.log)"
   done
   git -C /repo checkout -- .
